@@ -18,7 +18,8 @@ from harness.world import World, build_real, observe
 def _renderer(kind):
     if kind == "ident":
         return names.dotted, None
-    rn = {"clean": names.rho_clean, "adv": names.rho_adversarial, "adv2": names.rho_adversarial2}[kind]()
+    rn = {"clean": names.rho_clean, "adv": names.rho_adversarial, "adv2": names.rho_adversarial2,
+          "adv3": names.rho_adversarial3}[kind]()
     return rn.name, rn.back
 
 
